@@ -19,6 +19,7 @@ type pathStep struct {
 }
 
 type locSpec struct {
+	object bool        // every cell of the object ref points into (byte-level writes through casts)
 	mapRef Term        // whole Go map (content and domain) at this reference
 	mapTy  *types.Map
 	ghost  string // state name of a ghost variable (whole)
@@ -174,6 +175,9 @@ func (vc *VC) evalLoc(e SExpr, env *Env) []locSpec {
 			vc.leafPaths(sl.Elem(), nil, func(path []pathStep, ti *typeInfo, lt types.Type) {
 				out = append(out, locSpec{isRange: true, arr: vc.sliceArr(base.T), lo: off, hi: vc.add(off, vc.sliceCap(base.T)), path: path, ti: ti, lt: lt, text: e.String()})
 			})
+		case "object":
+			p := vc.evalSpec(e.Args[0], env)
+			out = append(out, locSpec{object: true, ref: vc.refOf(p), text: e.String()})
 		case "mapof":
 			m := vc.evalSpec(e.Args[0], env)
 			mt, ok := m.Ty.Go.Underlying().(*types.Map)
@@ -299,6 +303,10 @@ func (vc *VC) tryLvalue(e SExpr, env *Env) (ref Term, t types.Type, ok bool) {
 func (vc *VC) inLocs(r Term, memName string, locs []locSpec) Term {
 	var alts []Term
 	for _, l := range locs {
+		if l.object {
+			alts = append(alts, And(Not(Eq(l.ref, TNull)), Eq(vc.rootOf(r), vc.rootOf(l.ref))))
+			continue
+		}
 		if l.ghost != "" || l.mapTy != nil || vc.memName(l.ti) != memName {
 			continue
 		}
@@ -345,6 +353,14 @@ func (f *frame) frameCheckLocs(callee string, locs []locSpec, guard Term, pos to
 	for _, l := range locs {
 		var cond Term
 		switch {
+		case l.object:
+			alts := []Term{Eq(l.ref, TNull), App(SBool, ">=", vc.rootOf(l.ref), vc.topFrame.entryAlloc)}
+			for _, t := range vc.topLocs {
+				if t.object {
+					alts = append(alts, Eq(vc.rootOf(l.ref), vc.rootOf(t.ref)))
+				}
+			}
+			cond = Or(alts...)
 		case l.ghost != "":
 			ok := false
 			for _, t := range vc.topLocs {
@@ -503,7 +519,9 @@ func (f *frame) call(ins ssa.Instruction, common *ssa.CallCommon, result ssa.Val
 		argTypes = append(argTypes, a.Type())
 	}
 	// receiver nil check for pointer-receiver methods
-	if callee != nil && callee.Signature.Recv() != nil && len(common.Args) > 0 {
+	if c0 := vc.specs.Contracts[name]; c0 != nil && c0.NilSafe {
+		// the method tolerates a nil receiver
+	} else if callee != nil && callee.Signature.Recv() != nil && len(common.Args) > 0 {
 		if _, ok := callee.Signature.Recv().Type().Underlying().(*types.Pointer); ok {
 			f.nilCheck(common.Args[0], pos)
 		}
@@ -921,6 +939,22 @@ func (f *frame) havocLocs(locs []locSpec, guard Term, pre State) {
 	ranged := map[string][]locSpec{}
 	for _, l := range locs {
 		switch {
+		case l.object:
+			// all typed views of the object's cells change
+			names := append([]string{}, vc.stateOrder...)
+			for _, name := range names {
+				if !strings.HasPrefix(name, "Mem_") {
+					continue
+				}
+				cur := f.cur.get(vc, name)
+				n := vc.freshState(name)
+				r := Term{"qr", SRef}
+				elemSort := Sort(strings.TrimSuffix(strings.TrimPrefix(string(vc.stateSort[name]), "(Array Ref "), ")"))
+				same := Or(Not(guard), Eq(l.ref, TNull), Not(Eq(App(SInt, "root", r), vc.rootOf(l.ref))))
+				vc.assume(Forall([]Term{r}, Implies(same, Eq(Select(n, r, elemSort), Select(cur, r, elemSort)))))
+				f.cur[name] = n
+				f.recordMod(name)
+			}
 		case l.mapTy != nil:
 			c, d := vc.mapNames(l.mapTy)
 			for _, name := range []string{c, d} {
@@ -1516,13 +1550,20 @@ func (f *frame) goStmt(ins *ssa.Go) {
 			argTypes = append(argTypes, a.Type())
 		}
 		sig := types.NewSignatureType(nil, nil, nil, ins.Call.Signature().Params(), types.NewTuple(), false)
-		f.applyContract("go:"+name, con, ins.Call.StaticCallee(), sig, args, argTypes, ins.Pos())
+		callee := ins.Call.StaticCallee()
+		if mc, ok := ins.Call.Value.(*ssa.MakeClosure); ok {
+			vc.curClosure = mc
+			callee = mc.Fn.(*ssa.Function)
+		}
+		f.applyContract("go:"+name, con, callee, sig, args, argTypes, ins.Pos())
+		vc.curClosure = nil
 	}
 }
 
 func (f *frame) selectStmt(ins *ssa.Select) {
 	vc := f.vc
-	// nondeterministic choice among the cases (and default when non-blocking)
+	// nondeterministic choice among the cases (and default when non-blocking); a case whose channel
+	// has a role contract (chan.recv:/chan.send:<owner>.<field>) applies it when chosen
 	tup := ins.Type().(*types.Tuple)
 	idx := vc.freshConst(f.prefix+"_selidx", vc.intSort(64))
 	lo := int64(0)
@@ -1531,12 +1572,65 @@ func (f *frame) selectStmt(ins *ssa.Select) {
 	}
 	vc.assume(And(vc.le(vc.idxLit(lo), idx, true), vc.lt(idx, vc.idxLit(int64(len(ins.States))), true)))
 	fields := []Term{idx, vc.freshConst(f.prefix+"_selok", SBool)}
-	for i := 2; i < tup.Len(); i++ {
+	recvSlot := 2
+	for i, st := range ins.States {
+		op := "send"
+		if st.Dir == types.RecvOnly {
+			op = "recv"
+		}
+		name := "chan." + op + ":" + f.funcValueName(st.Chan)
+		con := vc.specs.Contracts[name]
+		guard := Eq(idx, vc.idxLit(int64(i)))
+		var recvVal Term
+		if op == "recv" && recvSlot < tup.Len() {
+			recvVal = vc.freshConst(f.prefix+"_selv", vc.info(tup.At(recvSlot).Type()).sort)
+			vc.assume(vc.typeInv(recvVal, tup.At(recvSlot).Type()))
+			f.assumeAllocated(recvVal, tup.At(recvSlot).Type(), f.cur)
+		}
+		if con != nil {
+			vc.noteCallee(name, con)
+			c2 := *con
+			if c2.Params == nil {
+				c2.Params = []string{"ch", "v"}
+			}
+			args := []Term{f.val(st.Chan)}
+			argTypes := []types.Type{st.Chan.Type()}
+			if st.Send != nil {
+				args = append(args, f.val(st.Send))
+				argTypes = append(argTypes, st.Send.Type())
+			}
+			var results *types.Tuple
+			if op == "recv" && recvSlot < tup.Len() {
+				results = types.NewTuple(types.NewVar(token.NoPos, nil, "v", tup.At(recvSlot).Type()))
+			}
+			sig := types.NewSignatureType(nil, nil, nil, types.NewTuple(), results, false)
+			saveReach, saveSt := f.reach, f.cur.clone()
+			f.reach = vc.define(f.prefix+"_r", And(f.reach, guard))
+			r := f.applyContract(name, &c2, nil, sig, args, argTypes, ins.Pos())
+			for k, v := range f.cur {
+				o := saveSt.get(vc, k)
+				if o.S != v.S {
+					f.cur[k] = vc.define(stateSym(k), Ite(guard, v, o))
+				}
+			}
+			f.reach = saveReach
+			if results != nil && r.S != "" {
+				recvVal = Ite(guard, r, recvVal)
+			}
+		} else {
+			vc.assumptions["A-CH select case "+name+" in "+FuncName(f.fn)+": no role contract, treated as an event without effect"] = true
+		}
+		if op == "recv" && recvSlot < tup.Len() {
+			fields = append(fields, recvVal)
+			recvSlot++
+		}
+	}
+	for len(fields) < tup.Len() {
+		i := len(fields)
 		v := vc.freshConst(f.prefix+"_selv", vc.info(tup.At(i).Type()).sort)
-		vc.assume(vc.typeInv(v, tup.At(i).Type()))
 		fields = append(fields, v)
 	}
 	f.setVal(ins, vc.mkTuple(tup, fields))
-	vc.assumptions["A-CH select in "+FuncName(f.fn)+": nondeterministic choice among its cases"] = true
+	vc.assumptions["A-CH select in "+FuncName(f.fn)+": nondeterministic choice among its cases (no buffering or fairness semantics)"] = true
 	f.selects[ins] = true
 }
